@@ -14,16 +14,96 @@ import (
 
 func main() { vm.Main("C05", run) }
 
+// sink keeps everything one WriteTo call emits: the bytes of all Write calls in order (n counts them all, buf
+// holds the first 32) and the number of calls. "The bytes emitted by WriteTo" is their concatenation.
 type sink struct {
-	buf [16]byte
+	buf [32]byte
 	n   int
 	cnt int
 }
 
 func (s *sink) Write(p []byte) (int, error) {
 	s.cnt++
-	s.n = copy(s.buf[:], p)
+	if s.n < len(s.buf) {
+		copy(s.buf[s.n:], p)
+	}
+	s.n += len(p)
 	return len(p), nil
+}
+
+func (s *sink) bytes() []byte { return s.buf[:min(s.n, len(s.buf))] }
+
+// counters of the sub-checks that run once per value (flushed into coverage classes at the end: a Cover call per
+// value would dominate the exhaustive loop).
+var tally struct {
+	tightInt, tightLong, sinkInt, sinkLong, multiWrite int64
+}
+
+// tightInt / tightLong call WriteToBytes on a buffer of exactly Len() bytes (what Packet.Pack hands it) that lies
+// inside a larger array, so that a stray write would land on a canary. They return the panic value, if any.
+func tightInt(v pk.VarInt, b []byte) (n int, pan any) {
+	defer func() { pan = recover() }()
+	return v.WriteToBytes(b), nil
+}
+
+func tightLong(v pk.VarLong, b []byte) (n int, pan any) {
+	defer func() { pan = recover() }()
+	return v.WriteToBytes(b), nil
+}
+
+// checkTight: WriteToBytes into buf[:Len()] must work (Len() is by the statement the number of bytes emitted) and
+// give the same bytes as into a roomy buffer. ref holds the reference bytes.
+func checkTight(c *vm.Ctx, long bool, v int64, ref []byte) {
+	var arr [24]byte
+	for i := range arr {
+		arr[i] = 0xA5
+	}
+	name, l := "varint", 0
+	if long {
+		name, l = "varlong", pk.VarLong(v).Len()
+	} else {
+		l = pk.VarInt(v).Len()
+	}
+	if l < 0 || l > 16 {
+		return // Len() itself is judged by the caller
+	}
+	b := arr[4 : 4+l : 4+l]
+	var n int
+	var pan any
+	if long {
+		n, pan = tightLong(pk.VarLong(v), b)
+	} else {
+		n, pan = tightInt(pk.VarInt(v), b)
+	}
+	if pan == nil && n == len(ref) && l == len(ref) && bytes.Equal(b, ref) {
+		for i := range arr {
+			if (i < 4 || i >= 4+l) && arr[i] != 0xA5 {
+				c.Violation(name+"/enc/buffer-of-Len-bytes/wrote-outside", fmt.Sprintf("%s(%d).WriteToBytes(buffer of Len()=%d bytes) changed the byte at %+d of the buffer", name, v, l, i-4), map[string]any{"value": v, "buffer_len": l})
+				return
+			}
+		}
+		if long {
+			tally.tightLong++
+		} else {
+			tally.tightInt++
+		}
+		return
+	}
+	w := map[string]any{"value": v, "buffer_len": l}
+	if pan != nil {
+		// once more under Guard, which attributes the panic to its go-mc frame
+		if !c.Guard(name+"/enc/buffer-of-Len-bytes", func() any { return w }, func() {
+			if long {
+				pk.VarLong(v).WriteToBytes(make([]byte, l))
+			} else {
+				pk.VarInt(v).WriteToBytes(make([]byte, l))
+			}
+		}) {
+			c.Violation(name+"/enc/buffer-of-Len-bytes/panic", fmt.Sprintf("%s(%d).WriteToBytes(buffer of Len()=%d bytes) panicked: %v", name, v, l, pan), w)
+		}
+		return
+	}
+	c.Violation(name+"/enc/buffer-of-Len-bytes/bytes", fmt.Sprintf("%s(%d).WriteToBytes(buffer of Len()=%d bytes) = %d, %x; reference %x", name, v, l, n, append([]byte(nil), b...), ref), w)
 }
 
 func refEnc32(u uint32, out *[16]byte) int {
@@ -77,11 +157,18 @@ func checkVarInt(c *vm.Ctx, v int32, full bool, snk *sink, src *inject.ByteSrc) 
 	if l := pk.VarInt(v).Len(); l != rn {
 		c.Violation("varint/len/mismatch", fmt.Sprintf("VarInt(%d).Len() = %d, bytes emitted %d", v, l, rn), map[string]any{"value": v})
 	}
-	// WriteTo
+	// the same into a buffer of exactly Len() bytes
+	checkTight(c, false, int64(v), ref[:rn])
+	// WriteTo: everything it hands to the writer, in order
 	snk.cnt, snk.n = 0, 0
 	wn, err := pk.VarInt(v).WriteTo(snk)
-	if err != nil || int(wn) != rn || snk.n != rn || !bytes.Equal(snk.buf[:snk.n], ref[:rn]) {
-		c.Violation("varint/enc/writeto-differs", fmt.Sprintf("VarInt(%d).WriteTo n=%d err=%v bytes=%x, reference %x", v, wn, err, snk.buf[:snk.n], ref[:rn]), map[string]any{"value": v})
+	if err != nil || int(wn) != rn || snk.n != rn || !bytes.Equal(snk.bytes(), ref[:rn]) {
+		c.Violation("varint/enc/writeto-differs", fmt.Sprintf("VarInt(%d).WriteTo n=%d err=%v, %d Write calls emitting %d bytes %x; reference %x", v, wn, err, snk.cnt, snk.n, snk.bytes(), ref[:rn]), map[string]any{"value": v, "write_calls": snk.cnt, "bytes_emitted": snk.n})
+	} else {
+		tally.sinkInt++
+		if snk.cnt > 1 {
+			tally.multiWrite++
+		}
 	}
 	// decode (ByteReader source), with trailer
 	var in [24]byte
@@ -124,10 +211,16 @@ func checkVarLong(c *vm.Ctx, v int64, snk *sink, src *inject.ByteSrc) {
 	if l := pk.VarLong(v).Len(); l != rn {
 		c.Violation("varlong/len/mismatch", fmt.Sprintf("VarLong(%d).Len() = %d, bytes emitted %d", v, l, rn), map[string]any{"value": v})
 	}
+	checkTight(c, true, v, ref[:rn])
 	snk.cnt, snk.n = 0, 0
 	wn, err := pk.VarLong(v).WriteTo(snk)
-	if err != nil || int(wn) != rn || snk.n != rn || !bytes.Equal(snk.buf[:snk.n], ref[:rn]) {
-		c.Violation("varlong/enc/writeto-differs", fmt.Sprintf("VarLong(%d).WriteTo n=%d err=%v bytes=%x, reference %x", v, wn, err, snk.buf[:snk.n], ref[:rn]), map[string]any{"value": v})
+	if err != nil || int(wn) != rn || snk.n != rn || !bytes.Equal(snk.bytes(), ref[:rn]) {
+		c.Violation("varlong/enc/writeto-differs", fmt.Sprintf("VarLong(%d).WriteTo n=%d err=%v, %d Write calls emitting %d bytes %x; reference %x", v, wn, err, snk.cnt, snk.n, snk.bytes(), ref[:rn]), map[string]any{"value": v, "write_calls": snk.cnt, "bytes_emitted": snk.n})
+	} else {
+		tally.sinkLong++
+		if snk.cnt > 1 {
+			tally.multiWrite++
+		}
 	}
 	var in [24]byte
 	copy(in[:], ref[:rn])
@@ -335,6 +428,22 @@ func run(c *vm.Ctx) {
 		c.Cover(fmt.Sprintf("varlong.len%d", n))
 		c.Eval(vm.HashStr("vl", fmt.Sprint(v)), n >= 2)
 	}
+	// every 7-bit group boundary of the Len table against the encoder loop: 2^(7k)-1 and 2^(7k) (k = 1..9), and the
+	// negative value with all groups from k upwards set, each with the low 16 bits running through all 2^16 patterns
+	// (so the continuation bits of the lower groups are seen all ones, all zeros and everything between).
+	var nSweep int64
+	for k := uint(1); k <= 9; k++ {
+		for x := uint64(c.Shard); x < 1<<16; x += uint64(c.NShards) {
+			ones := uint64(1)<<(7*k) - 1
+			for _, u := range [3]uint64{ones&^0xffff | x, uint64(1)<<(7*k) | x, ^ones | x} {
+				checkVarLong(c, int64(u), snk, src)
+				nSweep++
+			}
+		}
+		c.Cover(fmt.Sprintf("varlong.group-boundary-sweep.k%d", k))
+	}
+	c.EvalN(nSweep, vm.HashStr("varlong-group-sweep", fmt.Sprint(c.Shard)), true)
+	c.Cover("varlong.group-boundary-sweep")
 	var lastLongs []int64
 	for i := 0; i < nl; i++ {
 		var v int64
@@ -407,4 +516,11 @@ func run(c *vm.Ctx) {
 		}
 	}
 	_ = evals
+	c.CoverN("varint.enc.buffer-of-Len-bytes", tally.tightInt)
+	c.CoverN("varlong.enc.buffer-of-Len-bytes", tally.tightLong)
+	c.CoverN("varint.enc.writeto.all-writes-concatenated", tally.sinkInt)
+	c.CoverN("varlong.enc.writeto.all-writes-concatenated", tally.sinkLong)
+	if tally.multiWrite > 0 {
+		c.CoverN("enc.writeto.more-than-one-write-call", tally.multiWrite)
+	}
 }
